@@ -36,7 +36,11 @@ Verdict(c) ==
   LET nin == NumInputBits(c.def)
       U == Rows(nin)
   IN
-  IF nin # Len(c.inputs) THEN <<"fail", "signature-input-bits", nin, Len(c.inputs), {}, {}>>
+  \* frame clauses of C07 / C08 (present only in their cases): the callee / the unbound object has the
+  \* same observable state after the operation, and binding the same values again gives the same list
+  IF "fpb" \in DOMAIN c /\ c.fpb # c.fpa THEN <<"fail", "operand-object-modified", 0, 0, {}, {}>>
+  ELSE IF "again" \in DOMAIN c /\ c.again # c.exprs THEN <<"fail", "rebinding-same-values-differs", 0, 0, {}, {}>>
+  ELSE IF nin # Len(c.inputs) THEN <<"fail", "signature-input-bits", nin, Len(c.inputs), {}, {}>>
   ELSE IF Width(c.def.rdesc) # Len(c.rets) THEN <<"fail", "signature-return-bits", Width(c.def.rdesc), Len(c.rets), {}, {}>>
   ELSE IF Unbound(Live(c.exprs, {c.rets[b] : b \in 1..Len(c.rets)}), c.inputs) # {}
        THEN <<"fail", "return-bit-depends-on-free-symbol", 0, 0, {},
